@@ -10,7 +10,8 @@
    [evs] is the single event [EvEmit s n args ch out]; the calls the emit made itself are the
    [EvCall] children of [ch]: [direct_calls ch], their handler keys [called_keys ch].
    [status = Done] says the emit returned; otherwise an exception left it (NameError from a
-   script, or RecursionError = out of fuel) and the clauses about completed emits do not apply.
+   script, RecursionError = out of fuel, or the harness' per-case call budget [e_maxcalls] was
+   used up) and the clauses about completed emits do not apply.
    "The signal machinery never keeps a sender or a weak argument alive" is a statement about the
    CPython heap and is NOT a theorem: it is checked by the harness (weakref + gc.collect()). *)
 From Coq Require Import ZArith List Bool Sorted.
@@ -77,7 +78,7 @@ Print Assumptions handler_skipped_at_its_turn.
 
 Theorem handler_called_at_its_turn :
   forall run env args s n h post st res,
-    In (h_key h) (keys st s n) -> wargs_alive st h ->
+    In (h_key h) (keys st s n) -> wargs_alive st h -> st_calls st < e_maxcalls env ->
     exists body ret rest,
       snd (fst (fst (emit_loop (call_callback run env args) s n (h :: post) st res)))
       = EvCall (h_key h) (h_cb h) (argv_of h args) body ret :: rest.
@@ -166,13 +167,10 @@ Proof. exact sup_lookup_update. Qed.
 Print Assumptions registration_is_per_class.
 
 (* --- a weak argument that is garbage-collected: its weakref callbacks remove exactly the
-       handlers that reference it (for senders that are true in a boolean context; the
-       callback tests [if o:]) --- *)
+       handlers that reference it, whatever the sender (the callback tests [if o is not None:]) --- *)
 Theorem weak_argument_death_disconnects :
-  forall env o st s n,
-    handlers (die env o st) s n
-    = if sender_truthy env s then filter (fun h => negb (memz o (h_wargs h))) (handlers st s n)
-      else handlers st s n.
+  forall o st s n,
+    handlers (die o st) s n = filter (fun h => negb (memz o (h_wargs h))) (handlers st s n).
 Proof. exact handlers_die. Qed.
 Print Assumptions weak_argument_death_disconnects.
 
@@ -182,9 +180,7 @@ Theorem dropping_unheld_object_kills_it :
     exists st',
       run_op fuel env (OKill o) st = (st', [EvKill o 0; EvDied o], Done) /\
       In o (st_dead st') /\
-      forall s n, handlers st' s n =
-        if sender_truthy env s then filter (fun h => negb (memz o (h_wargs h))) (handlers st s n)
-        else handlers st s n.
+      forall s n, handlers st' s n = filter (fun h => negb (memz o (h_wargs h))) (handlers st s n).
 Proof. exact kill_unheld_proof. Qed.
 Print Assumptions dropping_unheld_object_kills_it.
 
@@ -208,10 +204,11 @@ Print Assumptions connection_order_preserved.
        defect repaired by the snapshot fix: the next handler used to be skipped), a weakly
        referenced argument dropped by a later handler, and a second emit --- *)
 Definition ex_env : envt :=
-  MkEnv [true] [0] [false; true]
+  MkEnv [0] [false; true]
         [ MkScript [ODisconnectKey 0 0 0] 0;     (* callback 0 disconnects itself, returns False *)
           MkScript [] 1;                         (* callback 1 returns True *)
-          MkScript [OKill 0] 2 ].                (* callback 2 drops object 0, returns None *)
+          MkScript [OKill 0] 2 ]                 (* callback 2 drops object 0, returns None *)
+        100.
 Definition ex_ops : list op :=
   [ ORegister 0 [0];
     OConnect 0 0 0 None [] [10];
